@@ -27,7 +27,7 @@ enum { K_VALUE = 0, K_EMPTY = 1, K_ABSENT = 2 };
 struct InD { const char* name; int kind; bool concurrent; };
 struct GraphD { int nv; VtxD v[5]; int nin; InD in[3]; int ntargets; const char* targets[3]; bool choose_targets; };
 enum { X_INPLACE = 0, X_THREADS = 1, X_POOL1 = 2, X_POOL2 = 3 };
-struct Cfg { const char* name; const GraphD* g; int exec; int cycles; };
+struct Cfg { const char* name; const GraphD* g; int exec; int cycles; bool callback = false; };
 
 #define DEP(t) {t, nullptr, PLAIN, false}
 #define DEP_ON(t, c) {t, c, ON, false}
@@ -142,6 +142,9 @@ static const Cfg cfgs[] = {
     {"lazily activated vertex whose dependency is in flight, thread per vertex", &g_lazy, X_THREADS, 1},
     {"lazily activated vertex with two dependencies in flight, thread per vertex", &g_lazy2, X_THREADS, 1},
     {"lazily activated vertex whose dependency is in flight, thread pool with 2 workers", &g_lazy, X_POOL2, 1},
+    {"diamond, thread pool with 2 workers, result delivered through on_finish()", &g_diamond, X_POOL2, 2, true},
+    {"a failing vertex, thread pool with 2 workers, result delivered through on_finish()", &g_fail, X_POOL2, 1, true},
+    {"on/unless over a shared target, thread pool with 2 workers, on_finish(), all target subsets", &g_cond, X_POOL2, 1, true},
 };
 // Called in every process before the memory snapshot is taken. babylon's WARNING lines on the error paths would pull
 // lazily initialised state of shared libraries (abseil's time zone tables) into the executions, and that state is
@@ -341,8 +344,18 @@ void harness_main(int c) {
     std::thread injector; bool injected = false;
     for (int i = 0; i < g->nin; i++) if (g->in[i].concurrent) { injector = std::thread([&, i] { provide(i); }); injected = true; }
     Closure closure = graph->run(tdata, (size_t)nt);
-    int rc = closure.get();
-    bbmc::check(closure.finished(), "get() returned but the closure does not report finished");
+    int rc;
+    std::atomic<int> cb_calls{0}, cb_done{0}; int cb_code = -99; bool cb_finished = false;
+    if (cf.callback) {
+      // the callback owns the closure from now on; it runs on a pool worker (or here, if the run has already finished)
+      closure.on_finish([&](Closure&& c) { cb_calls.fetch_add(1, std::memory_order_relaxed); cb_finished = c.finished(); cb_code = c.error_code(); cb_done.store(1, std::memory_order_release); });
+      while (cb_done.load(std::memory_order_acquire) == 0) sched_yield();
+      bbmc::check(cb_finished, "the on_finish callback ran although the closure does not report finished");
+      rc = cb_code;
+    } else {
+      rc = closure.get();
+      bbmc::check(closure.finished(), "get() returned but the closure does not report finished");
+    }
     if (rc == 0) {
       // targets are published by now; their values may be read as soon as get() returned
       for (int i = 0; i < nt; i++) {
@@ -354,8 +367,14 @@ void harness_main(int c) {
         }
       }
     }
-    closure.wait();
-    for (int v = 0; v < g->nv; v++) bbmc::check(world.started[v].load() == world.finished[v].load(), "wait() returned while a started vertex processor had not finished");
+    if (!cf.callback) {
+      closure.wait();
+      for (int v = 0; v < g->nv; v++) bbmc::check(world.started[v].load() == world.finished[v].load(), "wait() returned while a started vertex processor had not finished");
+    } else {
+      // the callback's Closure waits for the steady state when it dies; draining the pool makes sure that has happened
+      pexec.stop();
+      bbmc::check(cb_calls.load() == 1, "the on_finish callback did not run exactly once");
+    }
     if (injected) injector.join();
     texec.join_all();
     // ---- verdicts ----------------------------------------------------------------------------------
@@ -377,6 +396,7 @@ void harness_main(int c) {
       if (rd.ready) { bbmc::check(d->empty() == rd.empty, "a data's emptiness differs from the sequential evaluation"); if (!rd.empty) { const int* p = d->value<int>(); bbmc::check(p != nullptr && *p == rd.value, "a data holds a value different from the sequential evaluation"); } }
     }
     bbmc::observe((uint64_t)(rc != 0));
+    if (cf.callback && cycle + 1 < cf.cycles) bbmc::require(pexec.initialize(2, 8) == 0, "pool restart");
   }
-  if (cf.exec == X_POOL1 || cf.exec == X_POOL2) pexec.stop();
+  if ((cf.exec == X_POOL1 || cf.exec == X_POOL2) && !cf.callback) pexec.stop();
 }
